@@ -27,6 +27,14 @@ pub fn run(ctx: &Ctx) -> i32 {
         for spelled in [m.to_string(), m.to_uppercase(), m.chars().enumerate().map(|(i, c)| if i % 2 == 1 { c.to_ascii_uppercase() } else { c }).collect()] {
             let text = if m == "call" { format!("{spelled}{operand}\nhalt\nf rets\n") } else if m == "rets" { format!("call g\nhalt\ng {spelled}\n").replace("call g", if spelled == "rets" { "call g" } else { "call g" }) } else { format!("add r1 r1 #5\n{spelled}{operand}\nhalt\n") };
             cases.push(Cli { name: format!("instr-{spelled}"), text: Some(text), image: None, uses_ext: "mnemonic" });
+            // a comment directly behind the mnemonic or its label operand (no white space)
+            if m == "call" {
+                cases.push(Cli { name: format!("instr-comment-glued-{spelled}"), text: Some(format!("{spelled} f;c\nhalt;c\nf rets;c\n")), image: None, uses_ext: "mnemonic" });
+            } else if m == "rets" {
+                cases.push(Cli { name: format!("instr-comment-glued-{spelled}"), text: Some(format!("call g\nlea r0 msg\nputs\nhalt\ng add r1 r1 #1\n{spelled};c\nmsg .stringz \"back\"\n")), image: None, uses_ext: "mnemonic" });
+                // the only extension mnemonic of the source
+                cases.push(Cli { name: format!("instr-comment-glued-only-{spelled}"), text: Some(format!("add r1 r1 #1\n{spelled};c\n.fill x0\n")), image: None, uses_ext: "mnemonic" });
+            }
             cases.push(Cli { name: format!("label-{spelled}"), text: Some(format!("{spelled} add r0 r0 r0\nhalt\n")), image: None, uses_ext: "mnemonic-as-label" });
             cases.push(Cli { name: format!("operand-{spelled}"), text: Some(format!("br {spelled}\nhalt\n")), image: None, uses_ext: "mnemonic-as-label" });
             // with the label colon attached, on the statement's line and on a line of its own
